@@ -20,8 +20,7 @@ Qed.
 
 Lemma is_pow2_false x : is_pow2 x = false <-> ~ pow2 x.
 Proof.
-  rewrite <- is_pow2_spec. destruct (is_pow2 x); split; intros; try congruence.
-  exfalso; auto.
+  rewrite <- is_pow2_spec. destruct (is_pow2 x); split; intros; try congruence; try (exfalso; auto; fail).
 Qed.
 
 Lemma pow2_pos x : pow2 x -> 0 < x.
@@ -179,9 +178,8 @@ Proof.
       * destruct (Z.ltb_spec n (a_stride a)); split; try discriminate; try tauto; intros [_ ?]; lia.
       * destruct (Z.leb_spec (2^64) (a_nvals a * a_stride a)).
         { split; [discriminate|]. intros [_ [? ?]]; lia. }
-        destruct (Z.eqb_spec (a_nvals a * a_stride a) n); split; try discriminate; try tauto.
-        -- intros _. split; [assumption|]. split; lia.
-        -- intros [_ [? ?]]; lia.
+        destruct (Z.eqb_spec (a_nvals a * a_stride a) n); split; try discriminate; try tauto;
+          try (intros _; split; [assumption|]; split; lia); try (intros [_ [? ?]]; lia).
   - apply is_pow2_false in P. split; [discriminate|]. intros [? _]; contradiction.
 Qed.
 
@@ -217,9 +215,9 @@ Proof.
   intros Hv. pose proof Hv as [W V]. unfold get_num_steps. rewrite V.
   destruct (valid_cases a n Hv) as (Pn & [(S & _)|(S & P & L & Hf & m & Hm & En & [(Pe & Ev & Ed)|(Pe & Ev & Lm)])]);
     rewrite S.
-  - exists 1. repeat split; try lia. discriminate.
-  - rewrite Pe. exists m. rewrite Ed. repeat split; try lia. discriminate.
-  - rewrite Pe. exists m. rewrite Ev. repeat split; try lia. discriminate.
+  - exists 1. repeat split; try lia; try discriminate; try congruence.
+  - rewrite Pe. exists m. rewrite Ed. repeat split; try lia; try discriminate; try congruence.
+  - rewrite Pe. exists m. rewrite Ev. repeat split; try lia; try discriminate; try congruence.
 Qed.
 
 (* ------------------------------------------------------------------ steps_spec *)
@@ -253,13 +251,13 @@ Proof.
     [congruence| |]; rewrite Pe.
   - split.
     + intros (i & Hi & -> & Hlt). split; [nia|].
-      rewrite Z.add_comm, Z.mod_add by lia. apply Z.mod_small; lia.
+      rewrite Z.mod_add by lia. apply Z.mod_small; lia.
     + intros (Hs & Hmod). exists (s / a_stride a).
       pose proof (Z.div_mod s (a_stride a) ltac:(lia)).
       pose proof (Z.div_pos s (a_stride a) ltac:(lia) ltac:(lia)). repeat split; lia.
   - split.
     + intros (i & Hi & ->). split; [nia|].
-      rewrite Z.add_comm, Z.mod_add by lia. apply Z.mod_small; lia.
+      rewrite Z.mod_add by lia. apply Z.mod_small; lia.
     + intros (Hs & Hmod). exists (s / a_stride a).
       pose proof (Z.div_mod s (a_stride a) ltac:(lia)).
       pose proof (Z.div_pos s (a_stride a) ltac:(lia) ltac:(lia)).
@@ -350,9 +348,9 @@ Proof.
   intros Ha Hb.
   assert (Hsuff : (exists r, overlaps_with a b = Some r /\ (r = true <-> common_cell a b n))).
   2:{ destruct Hsuff as (r & -> & Hr). split; split.
-      - intros [= <-]. apply Hr; reflexivity.
+      - intros [= ->]. apply Hr; reflexivity.
       - intros H. f_equal. apply Hr; assumption.
-      - intros [= <-] H. apply Hr in H. discriminate.
+      - intros [= ->] H. apply Hr in H. discriminate.
       - intros H. f_equal. destruct r; [exfalso; apply H, Hr; reflexivity|reflexivity]. }
   unfold overlaps_with, common_cell.
   destruct (Z.eqb_spec (a_col a) (a_col b)) as [Ec|Ec]; cbn [negb].
@@ -418,7 +416,7 @@ Proof.
         assert (Hc' : exists s, (0 <= s < n /\ s mod a_stride b = a_first b) /\ (0 <= s < n /\ s mod a_stride a = a_first a))
           by (destruct Hc as (s & ? & ?); exists s; tauto).
         apply (class_meet' (a_stride b) (a_stride a) (a_first b) (a_first a) n c ma) in Hc'; try lia.
-        apply Z.mod_divide in Hc'; [|lia]. destruct Hc' as (q & Hq). nia.
+        apply Z.mod_divide in Hc'; [|lia]. destruct Hc' as (q & Hq). destruct (Z.le_gt_cases 0 q); nia.
     + destruct (Z.ltb_spec (a_stride b) (a_stride a)) as [Hs|Hs].
       * rewrite rem_is_zero_spec by lia. eexists. split; [reflexivity|]. rewrite Z.eqb_eq.
         destruct (pow2_lt_divide _ _ Pb Pa Hs) as (c & Hc & Eca).
@@ -433,5 +431,5 @@ Proof.
         assert (Hs' : a_stride a < a_stride b) by lia.
         destruct (pow2_lt_divide _ _ Pa Pb Hs') as (c & Hc2 & Ecb).
         apply (class_meet' (a_stride a) (a_stride b) (a_first a) (a_first b) n c mb) in Hc; try lia.
-        apply Z.mod_divide in Hc; [|lia]. destruct Hc as (q & Hq). nia.
+        apply Z.mod_divide in Hc; [|lia]. destruct Hc as (q & Hq). destruct (Z.le_gt_cases 0 q); nia.
 Qed.
